@@ -27,6 +27,9 @@ structure ScaleSt where
   ended : List Nat := []             -- replica numbers whose command has finished by itself
   launches : Nat := 0
   stops : Nat := 0
+  gateClosed : Bool := false         -- gate scenarios: every replica of "w" is Pending, waiting for "o"
+  oEnded : Bool := false             -- the gate's command has exited
+  zombies : List String := []        -- replicas removed while Pending: their goroutines are still registered, waiting for "o"
 
 def sortStrings (l : List String) : List String := (l.toArray.qsort (· < ·)).toList
 
@@ -37,8 +40,12 @@ def dump (ret : String) (s : ScaleSt) : String :=
   let info := sortStrings ((s.cur ++ other).map PC.Drv.Load.showReplica)
   -- a finished replica keeps its configuration, state and log; it is no longer registered as running
   let live := s.cur.filter fun r => !s.ended.contains r.num
-  let rs := "[" ++ ",".intercalate (sortStrings ((live ++ other).map fun r => String.ofList r.replicaName)) ++ "]"
-  s!"ret={ret} proj={ns} states={ns} snames={ns} logs={ns} run={rs} info=[{",".intercalate info}] alive={live.length + other.length} launches={s.launches} stops={s.stops}"
+  let otherLive := if s.oEnded then [] else other
+  -- a replica removed while it was still waiting is unregistered at once (its goroutine lingers unseen)
+  let regd := ((live ++ otherLive).map fun r => String.ofList r.replicaName)
+  let rs := "[" ++ ",".intercalate (sortStrings regd.eraseDups) ++ "]"
+  let alive := if s.gateClosed then otherLive.length else live.length + otherLive.length
+  s!"ret={ret} proj={ns} states={ns} snames={ns} logs={ns} run={rs} info=[{",".intercalate info}] alive={alive} launches={s.launches} stops={s.stops}"
 
 /-- the property's reference: a fresh load with `replicas: n` -/
 def freshDump (ret : String) (s : ScaleSt) (n : Nat) : String :=
@@ -51,7 +58,8 @@ def scaleStep (s : ScaleSt) (line : String) : ScaleSt × String :=
     match PC.Drv.Load.parseVars g, PC.Drv.Load.parseProc pw, PC.Drv.Load.parseProc po with
     | some g, some w, some o =>
       let cur := PC.Load.loadProc g w
-      let s' : ScaleSt := { g, w, o, cur, launches := cur.length + 1, stops := 0 }
+      let gate := (po.splitOn ";").getD 4 "" == hexEnc "gate"
+      let s' : ScaleSt := { g, w, o, cur, launches := if gate then 1 else cur.length + 1, stops := 0, gateClosed := gate }
       let d := dump "ok" s'
       (s', d ++ " ||| " ++ (if impl == d then "ok" else "bad:C13:C13:fresh-load"))
     | _, _, _ => (s, "bad-op")
@@ -64,6 +72,13 @@ def scaleStep (s : ScaleSt) (line : String) : ScaleSt × String :=
       let d := dump "ok" s'
       (s', d ++ " ||| " ++ (if impl == d then "ok" else "bad:C13:C13:finished-replica-view"))
     | none => (s, "bad-op")
+  | ["gexit"] =>
+    -- the gate opens: every replica that exists now is launched once; the goroutines of the replicas
+    -- removed in the meantime end without launching anything
+    let s' := if s.gateClosed then { s with gateClosed := false, oEnded := true, zombies := [], launches := s.launches + s.cur.length }
+              else { s with oEnded := true }
+    let d := dump "ok" s'
+    (s', d ++ " ||| " ++ (if impl == d then "ok" else "bad:C13,C14:C13:a replica removed while it was waiting for its dependency is launched later, or one that exists is not; C14:same"))
   | ["scupd", n] =>
     match n.toNat? with
     | some n =>
@@ -76,7 +91,13 @@ def scaleStep (s : ScaleSt) (line : String) : ScaleSt × String :=
         -- every replica's configuration changes (its `replicas` field): each running one is stopped,
         -- every replica of the new set is started once
         let live := (s.cur.filter fun r => !s.ended.contains r.num).length
-        let s' : ScaleSt := { s with w := { s.w with replicas := n }, cur := PC.Load.replicasOf s.g s.w n,
+        let s' : ScaleSt :=
+          if s.gateClosed then
+            { s with w := { s.w with replicas := n }, cur := PC.Load.replicasOf s.g s.w n, ended := [],
+                     -- a new replica registered under the name of a lingering goroutine takes the entry over
+                     zombies := (s.zombies ++ s.cur.map fun r => String.ofList r.replicaName).filter fun z =>
+                       !((PC.Load.replicasOf s.g s.w n).any fun r => String.ofList r.replicaName == z) }
+          else { s with w := { s.w with replicas := n }, cur := PC.Load.replicasOf s.g s.w n,
                                      launches := s.launches + n, stops := s.stops + live, ended := [] }
         let d := dump "ok" s'
         (s', d ++ " ||| " ++ (if impl == d then "ok" else "bad:C14,C13:C14:update-does-not-converge-to-the-new-replica-set; C13:not-the-replica-set-of-a-fresh-load"))
@@ -99,7 +120,11 @@ def scaleStep (s : ScaleSt) (line : String) : ScaleSt × String :=
         let cur' := PC.Load.scaleTo s.g s.w s.cur n
         -- removed replicas that were still running are stopped; finished ones are only forgotten
         let removedLive := (s.cur.filter fun r => r.num ≥ n && !s.ended.contains r.num).length
-        let s' : ScaleSt := { s with cur := cur', launches := s.launches + (n - s.cur.length), stops := s.stops + removedLive,
+        let s' : ScaleSt :=
+          if s.gateClosed then
+            { s with cur := cur', zombies := (s.zombies ++ (s.cur.filter fun r => r.num ≥ n).map fun r => String.ofList r.replicaName).filter fun z =>
+                       !(cur'.any fun r => String.ofList r.replicaName == z) }
+          else { s with cur := cur', launches := s.launches + (n - s.cur.length), stops := s.stops + removedLive,
                                      ended := s.ended.filter (· < n) }
         let d := dump "ok" s'
         -- the specification is the fresh load with `replicas: n` (theorem `scale_eq_fresh` makes both agree)
